@@ -16,6 +16,7 @@ var quickKinds = []string{"A", "Em", "Es", "Est", "Eo", "Eot", "W", "S", "WT"}
 var thoroughKinds = []string{"A", "AR", "Em", "Es", "Est", "Eo", "Eot", "W", "S", "WT", "R"}
 
 var voiceKinds = []string{"A", "D", "W", "Es", "Eo"}
+var eventKinds = []string{"AW", "W", "Eo"}
 var pushFailKinds = []string{"A", "W", "Es", "Eo", "EsEm", "EoEm"}
 
 var triggers = []string{"manual", "msg", "flow_action"}
@@ -75,6 +76,22 @@ func Roots(tier string) []world.Root {
 		}
 		for _, tr := range []string{"manual", "msg"} {
 			roots = append(roots, world.Root{Flows: &pushFail[i], Trigger: tr, Opt: world.Options{MaxSteps: LooseLimit}})
+		}
+	}
+	// the event family: nodes that log several events per step, among them consecutive identical ones
+	evf := world.EnumFlowSets(eventKinds, 2, 1)
+	for i := range evf {
+		uses := false
+		for _, fl := range evf[i].Flows {
+			for _, n := range fl.Nodes {
+				uses = uses || n.Kind == "AW"
+			}
+		}
+		if !uses {
+			continue
+		}
+		for _, tr := range []string{"manual", "msg"} {
+			roots = append(roots, world.Root{Flows: &evf[i], Trigger: tr, Opt: world.Options{MaxSteps: LooseLimit}})
 		}
 	}
 	// the voice family: dial waits and dial resumes
